@@ -22,6 +22,10 @@ pub enum Content {
 	Empty,
 	/// a directory with the ignore file's name
 	IsDir,
+	/// a non-empty file that cannot be loaded: 0 = its only line is an invalid glob ("notes["), 1 = it is not
+	/// valid UTF-8. It is still a discovered ignore file, contributes no patterns, and must not keep the other
+	/// ignore files of its directory from taking effect.
+	Unloadable(u8),
 }
 
 #[derive(Clone, Debug, Serialize, Deserialize)]
@@ -124,6 +128,13 @@ fn materialise(c: &C14Case, reverse: bool) -> Tree {
 				Content::Lines(l) => std::fs::write(&p, l.join("\n") + "\n").unwrap(),
 				Content::Empty => std::fs::write(&p, b"").unwrap(),
 				Content::IsDir => std::fs::create_dir_all(&p).unwrap(),
+				Content::Unloadable(k) => {
+					if k % 2 == 0 {
+						std::fs::write(&p, b"notes[\n").unwrap();
+					} else {
+						std::fs::write(&p, b"# caf\xe9\nbuild/\ntest/\n").unwrap();
+					}
+				}
 			}
 		}));
 	}
@@ -199,7 +210,12 @@ fn is_nonempty_file(p: &Path) -> bool {
 }
 
 fn read_lines(p: &Path) -> Vec<crate::gitmodel::Line> {
-	std::fs::read_to_string(p).unwrap_or_default().lines().filter_map(parse_line).collect()
+	// a file that is not UTF-8 or holds an invalid glob is not loaded at all
+	let Ok(text) = std::fs::read_to_string(p) else { return Vec::new() };
+	if text.lines().any(|l| l.trim_end() == "notes[") {
+		return Vec::new();
+	}
+	text.lines().filter_map(parse_line).collect()
 }
 
 /// Independent walker: returns the expected file set and the pruned directories that hold decoys.
@@ -343,7 +359,11 @@ pub fn run(c: &C14Case) -> Outcome {
 			.collect()
 	};
 	let root = t.origin.parent().unwrap().to_path_buf();
-	if !errors.is_empty() {
+	let has_unloadable = c.igfiles.iter().any(|f| matches!(f.content, Content::Unloadable(_)));
+	if has_unloadable {
+		o.label("unloadable-ignore-file");
+	}
+	if !errors.is_empty() && !has_unloadable {
 		o.fail("discovery-errors", format!("errors on a fault-free tree: {errors:?}\ncase {c:?}"));
 		return o;
 	}
@@ -369,7 +389,7 @@ pub fn run(c: &C14Case) -> Outcome {
 	let w2 = watch_of(&t2);
 	let (got2, errors2) = discover(&rt, &t2, &w2);
 	let root2 = t2.origin.parent().unwrap().to_path_buf();
-	if !errors2.is_empty() || strip(&got2, &root2) != strip(&got, &root) {
+	if (!errors2.is_empty() && !has_unloadable) || strip(&got2, &root2) != strip(&got, &root) {
 		o.fail(
 			"listing-order-dependence",
 			format!("same tree created in the opposite order gives a different result:\n{:?}\nvs\n{:?}\nerrors {errors2:?}\ncase {c:?}", strip(&got, &root), strip(&got2, &root2)),
@@ -394,7 +414,7 @@ fn strategy() -> BoxedStrategy<C14Case> {
 				1 => Just("te*".to_string()),
 				2 => al.positive_pattern(),
 			];
-			let content = prop_oneof![8 => proptest::collection::vec(dpat.clone(), 1..4).prop_map(Content::Lines), 1 => Just(Content::Empty), 1 => Just(Content::IsDir)];
+			let content = prop_oneof![16 => proptest::collection::vec(dpat.clone(), 1..4).prop_map(Content::Lines), 2 => Just(Content::Empty), 2 => Just(Content::IsDir), 1 => (0u8..2).prop_map(Content::Unloadable)];
 			let ig = (proptest::collection::vec(al.dir(), 0..3), 0u8..3, content).prop_map(|(dir, kind, content)| IgSpec { dir, kind, content });
 			(
 				proptest::collection::vec(dirpath, 0..6),
@@ -425,7 +445,7 @@ pub fn check(e: &Engine) {
 		"discovery",
 		LegOpts::det(
 			e.tier.pick(3_000, 60_000),
-			"generated trees (depth <=3, names from a 3-name alphabet often containing test/tests), 1-6 ignore files (.ignore/.gitignore/.hgignore; non-empty, empty, or a directory of that name) with directory-oriented patterns incl. negations, origin-level VCS files, VCS metadata dirs with decoys, explicit watch lists and explicit ignore files (separate files, and a third of the time also ignore files of the tree itself passed as explicit ones); result compared as a set with an independent walker; same tree created in the opposite order must give the same set; non-trivial = pruned subtree containing an ignore file, prefix-sibling pair, or explicit watch list",
+			"generated trees (depth <=3, names from a 3-name alphabet often containing test/tests), 1-6 ignore files (.ignore/.gitignore/.hgignore; non-empty, empty, a directory of that name, or a file that cannot be loaded: invalid glob / not UTF-8) with directory-oriented patterns incl. negations, origin-level VCS files, VCS metadata dirs with decoys, explicit watch lists and explicit ignore files (separate files, and a third of the time also ignore files of the tree itself passed as explicit ones); result compared as a set with an independent walker; same tree created in the opposite order must give the same set; non-trivial = pruned subtree containing an ignore file, prefix-sibling pair, or explicit watch list",
 		),
 		&strategy,
 		&run,
